@@ -156,6 +156,27 @@ def run_harness_watched(binp, args, stall=20, timeout=3400, env=None):
     return p.returncode, lines, err, hung
 
 
+def run_fuzz_watched(binp, seed, n, directory, max_hangs=4):
+    """decode-fuzz with the hang watchdog: returns (result lines without the summaries, hangs: [(index, bytes of the file)])"""
+    lines, hangs, skip = [], [], 0
+    while True:
+        rc, ls, err, hung = run_harness_watched(binp, ["decode-fuzz", "--seed", seed, "--n", n, "--dir", directory, "--skip", skip], stall=20, timeout=3000)
+        lines += [l for l in ls if "summary" not in l]
+        if hung is None:
+            if rc != 0:
+                tool_error(f"decode-fuzz failed: {err[-300:]}")
+            return lines, hangs
+        try:
+            with open(os.path.join(directory, "fuzz.a2l"), "rb") as f:
+                data = list(f.read())
+        except OSError:
+            data = []
+        hangs.append((hung, data))
+        if hung < 0 or len(hangs) >= max_hangs:
+            return lines, hangs
+        skip = hung + 1
+
+
 def run_cases_resilient(binp, subcmd, cases_path, out_path, ncases, extra=(), stall=20, max_hangs=5):
     """run a case file through a harness subcommand that writes one result line per case to out_path; hung cases are
     skipped and reported.  Returns (results: list of length ncases with {"hang": True} for hung / unfinished cases,
